@@ -43,6 +43,9 @@ SHAPES = [
     ('underscore-variable-in-spec', 'external-spec', 'spec: forall _X (p(_X) -> q(_X)).', 'p(X) :- q(X).', 'input: q/1. output: p/1.'),
     ('variable-named-like-suffix', 'external-spec', 'spec: forall X_i X$i (p(X_i) and X$i = X_i -> q(X$i)).', 'p(X) :- q(X).',
      'input: q/1. output: p/1.'),
+    ('same-name-different-sorts-in-one-block', 'external-spec', 'spec: forall X (p(X) -> exists X$i X (q(X$i) and q(X))). '
+     'spec: forall X X$i X$s (q(X) and X$i > 0 and X$s != a -> exists X$s X$i (X$i < 1 or X$s = a) or p(X)). assumption: exists X$i X$s X (X = X$i or X = X$s).',
+     'p(X) :- q(X).', 'input: q/1. output: p/1.'),
     ('formula-names', 'external-spec', 'spec[_n]: forall X (p(X) -> q(X)). spec[_n]: forall X (q(X) -> p(X)). spec: #true. '
      'assumption[formula_0_n]: forall X (q(X) -> X = X). spec[n]: forall X (p(X) <-> q(X)).', 'p(X) :- q(X).', 'input: q/1. output: p/1.'),
     ('formula-names-with-break-suffixes', 'external-spec', 'spec[n]: forall X (p(X) <-> q(X)). spec[n_0]: forall X (p(X) -> q(X)). '
